@@ -1,9 +1,12 @@
 // C10 harness: the real tlx::ThreadPool under the deterministic scheduler
 // (harness/detsched, force-included shim).  Line protocol:
 //
-//   pool <n>                 number of worker threads (>= 1)
-//   job <code> <act>...      body of job code <code>: e<code> = enqueue a job, t = terminate()
-//   client <call>...         a client thread: e<code> | t | w (loop_until_empty) | u (loop_until_terminate)
+//   pool <n> [init=<k>]      number of worker threads (>= 1); init=<k>: pass an init_thread callback that
+//                            yields k times (a worker that is neither idle nor busy while starting up)
+//   job <code> <act>...      body of job code <code>: e<code> = enqueue a job, t = terminate(), d = done(),
+//                            i = idle(), x = throw std::runtime_error (the rest of the body is not executed;
+//                            the pool catches and logs it)
+//   client <call>...         a client thread: e<code> | t | d | i | w (loop_until_empty) | u (loop_until_terminate)
 //   main <call>...           calls made by the main thread itself after starting the clients
 //   run seed=<n> [stick=<0..255>] [spur=<k>] [max=<steps>] [sched=<csv>]
 //   explore runs=<n> [spur=<k>] [max=<steps>]   depth-first enumeration of all schedules (up to n runs);
@@ -12,18 +15,23 @@
 //
 // `run` executes: main constructs the pool (spawning the workers, thread ids 1..n),
 // spawns the clients (ids n+1..), performs its own calls, joins the clients and
-// destroys the pool.  Answer: `end=<done|rest|limit> jobs=<pushed> runs=<csv> done=<done()> steps=<n> | <event trace>`.
+// destroys the pool.  Answer: `end=<done|rest|limit> jobs=<pushed> runs=<csv> done=<done()> thrown=<n> steps=<n> | <event trace>`.
 //
 // Direct oracle (independent of the Lean model), `#VIOL` lines:
 //   * a job body executed a second time;
 //   * loop_until_empty returned while a job was queued or running (private jobs_/busy_),
-//     or while a job pushed before had not run exactly once, or done() != number of finished jobs;
+//     or while a job pushed before had not run exactly once, or done() != number of finished jobs
+//     (a job that threw counts as run and as finished: the pool catches the exception and carries on);
+//   * done() larger than the number of finished job bodies or more than <workers> behind it, done() decreasing,
+//     idle() > size(), size() != <workers>; init_thread not called exactly once per worker with its index
+//     before the worker's first job; number of logged exceptions != number of jobs that threw;
 //   * loop_until_terminate returned while !terminate_ or busy_ != 0;
 //   * the run came to rest with a thread blocked in a condition wait whose predicate holds
 //     (lost wake-up / stranded waiter) or blocked on the mutex (deadlock);
 //   * at the normal end: a job ran more than once, done() != finished jobs.
 #include <cstring>
 #include <memory>
+#include <stdexcept>
 
 #include "common.hpp"
 
@@ -38,12 +46,13 @@ struct Act { char kind; int code; };
 
 struct Scenario {
     int nworkers = -1;
+    int init_yields = -1;                    // -1: no init_thread callback
     std::map<int, std::vector<Act>> jobs;
     std::vector<std::vector<Act>> clients;
     std::vector<Act> main_calls;
 };
 
-struct JobInst { int code; int id = -1; int runs = 0; bool finished = false; long effect = 0; };
+struct JobInst { int code; int id = -1; int runs = 0; bool finished = false; bool threw = false; long effect = 0; };
 
 struct RunState {
     alignas(tlx::ThreadPool) unsigned char store[sizeof(tlx::ThreadPool)];
@@ -54,6 +63,9 @@ struct RunState {
     std::map<int, JobInst*> cur_enq;         // logical thread -> job being enqueued
     std::map<int, char> in_call;             // logical thread -> blocking call it is in
     int finished_jobs = 0;
+    int thrown_jobs = 0;
+    std::map<int, int> init_calls;           // worker index -> number of init_thread calls
+    std::map<int, long long> last_done;      // logical thread -> last value of done() it saw
     long long final_done = -1;
     bool in_dtor = false;
     std::vector<std::string> viols;
@@ -62,10 +74,14 @@ struct RunState {
 
 static Scenario sc;
 static RunState* rs = nullptr;
+static std::ostringstream cerr_capture;     // what the pool logs ("EXCEPTION: …") goes here, not to stderr
 static std::vector<uint64_t> last_resolved;
 
 static bool parse_act(const std::string& t, bool in_job, Act& a) {
     if (t == "t") { a = {'t', 0}; return true; }
+    if (t == "d") { a = {'d', 0}; return true; }
+    if (t == "i") { a = {'i', 0}; return true; }
+    if (in_job && t == "x") { a = {'x', 0}; return true; }
     if (!in_job && t == "w") { a = {'w', 0}; return true; }
     if (!in_job && t == "u") { a = {'u', 0}; return true; }
     if (t.size() >= 2 && t[0] == 'e') {
@@ -83,10 +99,27 @@ static void run_job(JobInst* inst) {
     Sched& S = Sched::get();
     if (++inst->runs > 1) rs->viol("job " + std::to_string(inst->id) + " executed " + std::to_string(inst->runs) + " times");
     S.note("job+" + std::to_string(inst->id));
+    {
+        // the worker executing a job has been through init_thread exactly once
+        int p = Sched::self_id() - 1;
+        if (sc.init_yields >= 0 && rs->init_calls[p] != 1)
+            rs->viol("worker " + std::to_string(p) + " runs a job after " + std::to_string(rs->init_calls[p]) + " init_thread calls");
+    }
     inst->effect = 1000 + inst->id;
     auto it = sc.jobs.find(inst->code);
     if (it != sc.jobs.end())
-        for (const Act& a : it->second) do_call(a);
+        for (const Act& a : it->second) {
+            if (a.kind == 'x') {
+                // the job throws: it has run (once), the pool catches the exception and carries on
+                inst->finished = true;
+                inst->threw = true;
+                ++rs->finished_jobs;
+                ++rs->thrown_jobs;
+                S.note("job!" + std::to_string(inst->id));
+                throw std::runtime_error("job " + std::to_string(inst->id));
+            }
+            do_call(a);
+        }
     inst->finished = true;
     ++rs->finished_jobs;
     S.note("job-" + std::to_string(inst->id));
@@ -125,6 +158,26 @@ static void do_call(const Act& a) {
     case 't':
         rs->pool->terminate();
         break;
+    case 'd': {
+        long long v = static_cast<long long>(rs->pool->done());
+        if (S.aborting()) break;
+        // atomic with the load: job bodies finished so far
+        if (v > rs->finished_jobs) rs->viol("done()=" + std::to_string(v) + " but only " + std::to_string(rs->finished_jobs) + " job(s) finished");
+        if (v + sc.nworkers < rs->finished_jobs)
+            rs->viol("done()=" + std::to_string(v) + " is more than " + std::to_string(sc.nworkers) + " behind the " + std::to_string(rs->finished_jobs) + " finished job(s)");
+        if (rs->last_done.count(me) && v < rs->last_done[me]) rs->viol("done() went down from " + std::to_string(rs->last_done[me]) + " to " + std::to_string(v));
+        rs->last_done[me] = v;
+        S.note("r=" + std::to_string(v));
+        break;
+    }
+    case 'i': {
+        size_t v = rs->pool->idle();
+        if (S.aborting()) break;
+        if (rs->pool->size() != static_cast<size_t>(sc.nworkers)) rs->viol("size()=" + std::to_string(rs->pool->size()) + " for " + std::to_string(sc.nworkers) + " workers");
+        if (v > rs->pool->size()) rs->viol("idle()=" + std::to_string(v) + " > size()");
+        S.note("r=" + std::to_string(v));
+        break;
+    }
     case 'w':
         rs->in_call[me] = 'w';
         rs->pool->loop_until_empty();
@@ -155,7 +208,15 @@ static void scenario_main() {
     S.name(&p->done_, "done");
     S.name(&p->terminate_, "term");
     rs->pool = p;
-    new (p) tlx::ThreadPool(static_cast<size_t>(sc.nworkers));
+    if (sc.init_yields >= 0)
+        new (p) tlx::ThreadPool(static_cast<size_t>(sc.nworkers), tlx::ThreadPool::InitThread([](size_t idx) {
+            ++rs->init_calls[static_cast<int>(idx)];
+            if (static_cast<int>(idx) != Sched::self_id() - 1)
+                rs->viol("init_thread called with index " + std::to_string(idx) + " in thread " + std::to_string(Sched::self_id()));
+            for (int k = 0; k < sc.init_yields; ++k) Sched::get().yield();
+        }));
+    else
+        new (p) tlx::ThreadPool(static_cast<size_t>(sc.nworkers));
     rs->constructed = true;
     std::vector<int> ids;
     for (size_t i = 0; i < sc.clients.size(); ++i) {
@@ -258,7 +319,19 @@ static std::string execute(const RunParams& p, bool tail_zero, std::vector<std::
             }
         }
     };
+    cerr_capture.str("");
     detsched::End e = S.run(scenario_main);
+    {
+        // the catch path of the worker logs every exception it swallowed
+        const std::string log = cerr_capture.str();
+        int logged = 0;
+        for (size_t pos = log.find("EXCEPTION:"); pos != std::string::npos; pos = log.find("EXCEPTION:", pos + 1)) ++logged;
+        if (e != detsched::End::StepLimit && logged != state.thrown_jobs)
+            state.viol(std::to_string(state.thrown_jobs) + " job(s) threw but the pool logged " + std::to_string(logged) + " exception(s)");
+        if (e == detsched::End::Done && sc.init_yields >= 0)
+            for (int p = 0; p < sc.nworkers; ++p)
+                if (state.init_calls[p] != 1) { state.viol("init_thread called " + std::to_string(state.init_calls[p]) + " times for worker " + std::to_string(p)); break; }
+    }
     // summary (all logical threads are gone now)
     long long done = state.final_done;
     if (state.constructed && !state.destroyed) done = static_cast<long long>(state.pool->done_.peek());
@@ -269,7 +342,7 @@ static std::string execute(const RunParams& p, bool tail_zero, std::vector<std::
        << " jobs=" << state.pushed.size() << " runs=";
     if (state.pushed.empty()) os << "-";
     for (size_t i = 0; i < state.pushed.size(); ++i) os << (i ? "," : "") << state.pushed[i]->runs;
-    os << " done=" << done << " steps=" << S.steps << " |";
+    os << " done=" << done << " thrown=" << state.thrown_jobs << " steps=" << S.steps << " |";
     for (const auto& ev : S.trace) os << ' ' << ev;
     if (state.constructed && !state.destroyed) state.pool->~ThreadPool();
     v = state.viols;
@@ -316,6 +389,7 @@ static std::string do_explore(const std::vector<std::string>& t) {
 
 int main(int argc, char** argv) {
     if (argc < 2 || std::string(argv[1]) != "run") { std::cerr << "usage: c10 run\n"; return 2; }
+    std::cerr.rdbuf(cerr_capture.rdbuf());
     std::string line;
     while (std::getline(std::cin, line)) {
         auto t = vh::tokens(line);
@@ -323,10 +397,13 @@ int main(int argc, char** argv) {
         if (t[0][0] == '#') { vh::answer(line); continue; }
         if (t[0] == "case") { sc = Scenario(); last_resolved.clear(); vh::answer("case"); continue; }
         std::string out = "bad-op";
-        if (t[0] == "pool" && t.size() == 2 && t[1].size() <= 2 && isdigit(static_cast<unsigned char>(t[1][0])) &&
+        if (t[0] == "pool" && (t.size() == 2 || t.size() == 3) && t[1].size() <= 2 && isdigit(static_cast<unsigned char>(t[1][0])) &&
             (t[1].size() == 1 || isdigit(static_cast<unsigned char>(t[1][1])))) {
             int n = std::stoi(t[1]);
-            if (n >= 1 && n <= 8) { sc.nworkers = n; out = "ok"; }
+            uint64_t k = 0;
+            bool ok = n >= 1 && n <= 8;
+            if (t.size() == 3 && !(get_u64(t[2], "init", k) && k <= 8)) ok = false;
+            if (ok) { sc.nworkers = n; sc.init_yields = (t.size() == 3) ? static_cast<int>(k) : -1; out = "ok"; }
         } else if (t[0] == "job" && t.size() >= 2) {
             Act c;
             if (parse_act("e" + t[1], true, c)) {
